@@ -31,7 +31,10 @@ Node: 'n' name=ID ('->' up=[Item])? ('h' head=Item)? '{' items*=Item '}';
 Leaf: 'l' name=ID ('->' up=[Item])? (':' val=Val)?;
 Val: /\\d+/;
 """
-KINDS = ["textx-no-location", "textx-own-location", "textx-own-linecol-only", "wrapped-valueerror"]
+KINDS = ["textx-no-location", "textx-own-location", "textx-own-linecol-only", "wrapped-valueerror", "semantic-own-location", "syntax-own-location",
+         "semantic-no-location"]
+# "group": the same grammar with the value rule written with one regex group, meta-model created with use_regexp_group=True
+GRAMMAR_GROUP = GRAMMAR.replace("Val: /\\d+/;", "Val: /(\\d+)/;")
 LAYOUTS = ["plain", "leading-newlines", "indented", "newline-separated", "mixed"]
 _S = {}
 
@@ -60,18 +63,20 @@ def mm(kind):
 
     if "mm" not in _S:
         _S["mm"] = metamodel_from_str(GRAMMAR)
-    return _S["mm"]
+        assert GRAMMAR_GROUP != GRAMMAR
+        _S["mm-group"] = metamodel_from_str(GRAMMAR_GROUP, use_regexp_group=True)
+    return _S["mm-group" if kind == "group" else "mm"]
 
 
-def run_case(f, target, tkind, ekind, source, how):
+def run_case(f, target, tkind, ekind, source, how, mmk=None):
     """target: path of the object (tkind 'object') or of the leaf whose value fails (tkind 'match')"""
-    from textx.exceptions import TextXError
+    from textx.exceptions import TextXError, TextXSemanticError, TextXSyntaxError
     from textx import textxerror_wrap
 
     nm = trees.names(f)
     vals = {p: 100 + i for i, (p, k) in enumerate(trees.flatten(f)) if k == "l"}
     text = layout(trees.render(f, nm, None, vals).split(" "), how)
-    m_ = mm(None)
+    m_ = mm(mmk)
     m_.register_obj_processors({"Val": lambda x: int(x)})
     clean = m_.model_from_str(text)
     obj = trees.obj_at(clean, target)
@@ -97,6 +102,12 @@ def run_case(f, target, tkind, ekind, source, how):
             return TextXError("boom", **own)
         if ekind == "textx-own-linecol-only":
             return TextXError("boom", line=own["line"], col=own["col"])
+        if ekind == "semantic-own-location":
+            return TextXSemanticError("boom", **own)
+        if ekind == "syntax-own-location":
+            return TextXSyntaxError("boom", **own)
+        if ekind == "semantic-no-location":
+            return TextXSemanticError("boom")
         return ValueError("boom")
 
     def objproc(o):
@@ -116,7 +127,8 @@ def run_case(f, target, tkind, ekind, source, how):
     if tkind == "object":
         procs[cls] = objproc_
     m_.register_obj_processors(procs)
-    obs = {"text": text, "target": tname if tkind == "object" else "value %s" % tval, "error_kind": ekind, "source": source, "layout": how}
+    obs = {"text": text, "target": tname if tkind == "object" else "value %s" % tval, "error_kind": ekind, "source": source, "layout": how,
+           "metamodel": "use_regexp_group=True, Val: /(\\d+)/" if mmk == "group" else "default"}
     try:
         if source == "file":
             m_.model_from_file(fn)
@@ -131,7 +143,7 @@ def run_case(f, target, tkind, ekind, source, how):
         # a non-textX exception from a match processor wrapped by textxerror_wrap has no object: TextXError without location is allowed to be completed
         return False, obs
     exp = {"line": line, "col": col, "filename": fn, "nchar": (end - start) if tkind == "object" else None}
-    if ekind == "textx-own-location":
+    if ekind.endswith("-own-location"):
         exp = dict(own)
     elif ekind == "textx-own-linecol-only":
         exp["line"], exp["col"] = own["line"], own["col"]
@@ -152,14 +164,15 @@ def work(arg):
                 for ekind in KINDS:
                     for source in ("str", "file"):
                         for how in LAYOUTS:
-                            cid = [f, p, tkind, ekind, source, how]
-                            with watchdog(20):
-                                ok, obs = run_case(f, p, tkind, ekind, source, how)
-                            u.case(cid, nontrivial=True, sample=obs if how == "mixed" and source == "file" else None)
-                            u.count("%s/%s" % (tkind, ekind))
-                            if not ok:
-                                u.fail(cid, {"forest": f, "target": p, "tkind": tkind, "ekind": ekind, "source": source, "layout": how},
-                                       sig="%s %s %s" % (tkind, ekind, source), what=str(obs)[:500])
+                            for mmk in ((None, "group") if tkind == "match" else (None,)):
+                                cid = [f, p, tkind, ekind, source, how, mmk]
+                                with watchdog(20):
+                                    ok, obs = run_case(f, p, tkind, ekind, source, how, mmk)
+                                u.case(cid, nontrivial=True, sample=obs if how == "mixed" and source == "file" else None)
+                                u.count("%s/%s" % (tkind, ekind))
+                                if not ok:
+                                    u.fail(cid, {"forest": f, "target": p, "tkind": tkind, "ekind": ekind, "source": source, "layout": how, "mm": mmk},
+                                           sig="%s %s %s %s" % (tkind, ekind, source, mmk), what=str(obs)[:500])
     return u
 
 
@@ -179,4 +192,4 @@ def run(ctx):
 
 
 def replay(p):
-    return run_case(tup(p["forest"]), tup(p["target"]), p["tkind"], p["ekind"], p["source"], p["layout"])
+    return run_case(tup(p["forest"]), tup(p["target"]), p["tkind"], p["ekind"], p["source"], p["layout"], p.get("mm"))
